@@ -92,11 +92,14 @@ fn make_pair(bytes: &[u8]) -> Pair {
 fn case(bytes: &[u8], with_bin: bool) -> Outcome {
     let p = make_pair(bytes);
     let (ta, tb) = (&p.a.text, &p.b.text);
-    // printer soundness first: both renderings must denote the same tree, else the check is broken, not complgen
-    match (sorted_tree(ta), sorted_tree(tb)) {
-        (Some(x), Some(y)) if x == y => {}
-        _ => return Outcome::Broken(format!("the two renderings do not parse to the same tree (printer problem):\n{ta}\n----\n{tb}")),
-    }
+    // the printer's rules are C05's subject (print/parse round trip over the same printer); if the renderings
+    // parse to different trees here, the scripts decide, and the message says that the trees differ
+    let trees_differ = match (sorted_tree(ta), sorted_tree(tb)) {
+        (Some(x), Some(y)) => x != y,
+        (None, None) => false,
+        _ => true,
+    };
+    let note = if trees_differ { " [the two renderings do not parse to the same tree]" } else { "" };
     let detail = |shell: &str| json!({"a": ta, "b": tb, "g": p.g.to_json(), "shell": shell});
     let (ea, eb) = match (emit_all(ta), emit_all(tb)) {
         (Ok(a), Ok(b)) => (a, b),
@@ -112,20 +115,20 @@ fn case(bytes: &[u8], with_bin: bool) -> Outcome {
                     let at = x.bytes().zip(y.bytes()).position(|(p, q)| p != q).unwrap_or(x.len().min(y.len()));
                     let ctx = |s: &str| s[s.char_indices().map(|(i, _)| i).filter(|i| *i <= at.saturating_sub(60)).last().unwrap_or(0)..].chars().take(160).collect::<String>();
                     return Outcome::Fail(Failure::new(
-                        format!("two layouts of one grammar compile to different {shell} scripts (first difference at byte {at}: {:?} vs {:?})", ctx(x), ctx(y)),
+                        format!("two layouts of one grammar compile to different {shell} scripts{note} (first difference at byte {at}: {:?} vs {:?})", ctx(x), ctx(y)),
                         detail(shell),
                     ));
                 }
             }
             (Err(x), Err(y)) => {
                 if x != y {
-                    return Outcome::Fail(Failure::new(format!("two layouts of one grammar are rejected differently for {shell}: {x} vs {y}"), detail(shell)));
+                    return Outcome::Fail(Failure::new(format!("two layouts of one grammar are rejected differently for {shell}{note}: {x} vs {y}"), detail(shell)));
                 }
                 c.exclude("rejected by the pipeline for both layouts (C08's business)", 1);
             }
             (x, y) => {
                 return Outcome::Fail(Failure::new(
-                    format!("one layout is accepted for {shell}, the other is not: {:?} vs {:?}", x.as_ref().map(|_| "ok"), y.as_ref().map(|_| "ok")),
+                    format!("one layout is accepted for {shell}, the other is not{note}: {:?} vs {:?}", x.as_ref().map(|_| "ok"), y.as_ref().map(|_| "ok")),
                     detail(shell),
                 ))
             }
@@ -202,7 +205,7 @@ pub fn run(tier: Tier, seed: u64) -> i32 {
         tier,
         seed,
         "exploration",
-        "metamorphic: one clean grammar (definitions, specialisations, words, ||, descriptions), two independent renderings that differ in blanks/tabs/newlines/CRLF/form feeds/# comments at every token boundary, '=' vs '::=', final ';', redundant parentheses around space-separated items outside words, and the order of the statements (call variants keep their relative order). Both renderings are first parsed and compared as trees (a difference is a printer problem -> exit 2). Oracle: byte-identical script for each of the 4 shells through the library pipeline (same verdict and same error when rejected); part 'binary': stdout and exit status of the real binary for one shell. Non-trivial: >=2 definitions and (statement order differs or >=5 layout choices); distinct by grammar tree.",
+        "metamorphic: one clean grammar (definitions, specialisations, words, ||, descriptions), two independent renderings that differ in blanks/tabs/newlines/CRLF/form feeds/# comments at every token boundary, '=' vs '::=', final ';', redundant parentheses around space-separated items outside words, and the order of the statements (call variants keep their relative order). Oracle: byte-identical script for each of the 4 shells through the library pipeline (same verdict and same error when rejected); part 'binary': stdout and exit status of the real binary for one shell. Non-trivial: >=2 definitions and (statement order differs or >=5 layout choices); distinct by grammar tree.",
     );
     run.enumerate("regress", load_regress("C14"), false, case_regress);
     run.shards = 3;
